@@ -179,7 +179,7 @@ def entry_elements(kind, lines, phases):
 
 
 # ------------------------------------------------------------------------------------------------ running
-def run_engine(exe, db, histories, templates, timeout=900):
+def run_engine(exe, db, histories, templates, timeout=420):
     """one harness process for a list of histories; returns per history a list of per-call observations"""
     lines = []
     for h in histories:
@@ -187,9 +187,17 @@ def run_engine(exe, db, histories, templates, timeout=900):
         lines.append("run " + hx(G.PREAMBLE))
         for run in h:
             lines.append("run " + hx(G.render_run(run, templates)))
-    r = subprocess.run([str(exe)], input="\n".join(lines) + "\n", text=True, capture_output=True, timeout=timeout)
+    timed_out = False
+    try:
+        r = subprocess.run([str(exe)], input="\n".join(lines) + "\n", text=True, capture_output=True, timeout=timeout)
+        stdout, rc, errtail = r.stdout, r.returncode, r.stderr[-300:]
+    except subprocess.TimeoutExpired as e:      # a calculation that does not finish: what was printed so far is judged
+        so = e.stdout or ""
+        stdout = so.decode(errors="replace") if isinstance(so, bytes) else so
+        stdout = stdout[:stdout.rfind("\n") + 1]
+        rc, errtail, timed_out = 0, "timeout", True
     res, cur, obs = [], None, None
-    for ln in r.stdout.splitlines():
+    for ln in stdout.splitlines():
         w = ln.split(" ")
         if w[0] == "N":
             cur = []
@@ -204,8 +212,9 @@ def run_engine(exe, db, histories, templates, timeout=900):
             obs["err2"] = unhx(w[2])
         elif w[0] == "C":
             obs["comps"] = w[2:]
-    crashed = r.returncode != 0
-    return res, crashed, r.stderr[-300:]
+    if timed_out and res:
+        res[-1] = None                     # the history being run when time was up
+    return res, rc != 0, errtail
 
 
 def run_model(ctx, histories, templates, cfg):
@@ -585,8 +594,11 @@ def check_chunk(ctx, exe, db, phases, templates, cfg, chunk):
     mod = run_model(ctx, chunk, templates, cfg)
     res = []
     for i, h in enumerate(chunk):
-        if i >= len(eng):
-            res.append((("bad", f"harness died ({errtail})"), {}, None))
+        if i >= len(eng) or eng[i] is None:
+            if errtail == "timeout":
+                res.append((None, {}, "calculation did not finish within the time limit"))
+            else:
+                res.append((("bad", f"harness died ({errtail})"), {}, None))
             continue
         res.append(judge_history(phases, h, eng[i], mod[i]))
     return res
